@@ -6,6 +6,7 @@ import (
 	"crypto/elliptic"
 	"fmt"
 	"math/big"
+	"strings"
 	"testing"
 
 	patecdsa "github.com/cloudflare/pat-go/ecdsa"
@@ -43,6 +44,29 @@ func TestIndexStability(t *testing.T) {
 			return k
 		}
 		origins := []string{"a.example", "b.example", "shares-key-with-a.example"}
+		// the two origins with DIFFERENT index keys may be look-alikes: whatever normalisation, truncation or prefix
+		// matching happened to a name on its way to the index key shows as the wrong blinded request key / ID
+		nameKind := gen.Uniform(t, 7, "names")
+		switch nameKind {
+		case 1:
+			origins[1] = origins[0] + "\x00eu" // embedded NUL, the part before it is registered too
+		case 2:
+			origins[1] = origins[0] + "."
+		case 3:
+			origins[1] = strings.ToUpper(origins[0])
+		case 4:
+			origins[0] = strings.Repeat("a", 22) + ".example" // exactly one 32-byte block
+			origins[1] = origins[0] + "x"
+		case 5:
+			o := gen.OriginName().Draw(t, "drawnName")
+			// (a name ENDING in a zero byte cannot be told from its padding - that is the wire format, not a defect)
+			if len(o) > 1 && o[len(o)-1] != 0 && o[len(o)-2] != 0 && o != origins[2] && o[:len(o)-1] != origins[2] {
+				origins[0], origins[1] = o, o[:len(o)-1]
+			}
+		case 6:
+			origins[1] = " " + origins[0]
+		}
+		s.Class([]string{"names:plain", "names:embedded-NUL-extension", "names:trailing-dot", "names:upper-case", "names:block-boundary", "names:drawn-and-its-prefix", "names:leading-space"}[nameKind])
 		_ = iss.AddOriginWithIndexKey(origins[0], mkKey(idxA))
 		_ = iss.AddOriginWithIndexKey(origins[1], mkKey(idxB))
 		_ = iss.AddOriginWithIndexKey(origins[2], mkKey(idxA))
@@ -167,6 +191,42 @@ func TestIndexStability(t *testing.T) {
 		}
 		if anonPerClient {
 			s.Class("anon-id-shared-across-origins")
+		}
+		// the same client key presented in another encoding (uncompressed SEC1): the attester refuses it, or it is the
+		// same client and gets the same ID ("depends only on the client's public key")
+		{
+			client := type3.NewRateLimitedClientFromSecret(secrets[0])
+			blind := gen.P384KeyBytes().Draw(t, "blindU")
+			st, err := client.CreateTokenRequest(gen.Challenge().Draw(t, "challengeU"), gen.Bytes32().Draw(t, "nonceU"), blind, iss.TokenKeyID(), iss.TokenKey(), origins[0], iss.NameKey())
+			if err != nil {
+				t.Fatalf("harness: %v", err)
+			}
+			cx, cy := elliptic.UnmarshalCompressed(elliptic.P384(), st.ClientKey())
+			unc := elliptic.Marshal(elliptic.P384(), cx, cy)
+			anon := []byte("anon-origin-0-0")
+			if anonPerClient {
+				anon = []byte("anon-origin-of-client-0")
+			}
+			var verr error
+			o := rt.GuardLite(func() {
+				verr = att.VerifyRequest(*st.Request(), append([]byte{}, blind...), append([]byte{}, unc...), append([]byte{}, anon...))
+			})
+			if o.Panic == nil && verr == nil {
+				s.Class("uncompressed-client-key-accepted")
+				if _, blindedReqKey, err := iss.Evaluate(st.Request().Marshal()); err == nil {
+					var id []byte
+					var ferr error
+					o := rt.GuardLite(func() {
+						id, ferr = att.FinalizeIndex(append([]byte{}, unc...), append([]byte{}, blind...), blindedReqKey, append([]byte{}, anon...))
+					})
+					if o.Panic == nil && ferr == nil && !bytes.Equal(id, wantIDs["0|"+origins[0]]) {
+						rt.Fail(t, "C08/unstable-across-key-encodings", "the attester accepted the client's key in uncompressed form and derived ID %x for it; the same client key in compressed form has ID %x for the same origin", id, wantIDs["0|"+origins[0]])
+						return
+					}
+				}
+			} else {
+				s.Class("uncompressed-client-key-refused")
+			}
 		}
 		for key, id := range ids {
 			if want := wantIDs[key]; !bytes.Equal(id, want) {
